@@ -531,6 +531,9 @@ func (e *Engine) contractCall1(fr *frame, x *ssa.Call, fn *ssa.Function, spec *F
 	c := e.C
 	short := ShortKey(spec.Key)
 	pre := st.heap
+	if e.cur != nil && e.cur.used != nil {
+		e.cur.used[spec.Key] = true
+	}
 	// preconditions
 	env := e.specEnvFor(fn, spec, args, nil, &pre, nil, false)
 	if !spec.NoTypeInv {
